@@ -358,6 +358,8 @@ func (s *DiscoveryServer) forceEDSPush(con *Connection) error {
 // using WatchedResource for previous state and discovery request for the current state.
 func shouldRespondDelta(con *Connection, request *discovery.DeltaDiscoveryRequest) bool {
 	stype := v3.GetShortType(request.TypeUrl)
+	// detachedSubChange is set when the request is a NACK or a stale ACK that carries a subscription change.
+	detachedSubChange := false
 
 	// If there is an error in request that means previous response is erroneous.
 	// We do not have to respond in that case. In this case request's version info
@@ -374,7 +376,12 @@ func shouldRespondDelta(con *Connection, request *discovery.DeltaDiscoveryReques
 			wr.LastError = request.ErrorDetail.GetMessage()
 			return wr
 		})
-		return false
+		if len(request.ResourceNamesSubscribe) == 0 && len(request.ResourceNamesUnsubscribe) == 0 {
+			return false
+		}
+		// The response is rejected, but a delta client sends each subscription change exactly once and may
+		// attach it to any request, including a NACK. The change is handled like a spontaneous request below.
+		detachedSubChange = true
 	}
 
 	deltaLog.Debugf("ADS:%s REQUEST %v: sub:%v unsub:%v initial:%v", stype, con.ID(),
@@ -418,13 +425,18 @@ func shouldRespondDelta(con *Connection, request *discovery.DeltaDiscoveryReques
 		deltaLog.Debugf("ADS:%s: REQ %s Expired nonce received %s, sent %s", stype,
 			con.ID(), request.ResponseNonce, previousInfo.NonceSent)
 		xds.ExpiredNonce.With(typeTag.Value(v3.GetMetricType(request.TypeUrl))).Increment()
-		return false
+		if len(request.ResourceNamesSubscribe) == 0 && len(request.ResourceNamesUnsubscribe) == 0 {
+			return false
+		}
+		// The ACK is stale, but the subscription change it carries (see above) must not be lost with it: a newer
+		// push may simply have overtaken the ACK. It is handled like a spontaneous request; the ACK is not recorded.
+		detachedSubChange = true
 	}
 
 	// Spontaneous DeltaDiscoveryRequests from the client.
 	// This can be done to dynamically add or remove elements from the tracked resource_names set.
 	// In this case response_nonce is empty.
-	spontaneousReq := request.ResponseNonce == ""
+	spontaneousReq := request.ResponseNonce == "" || detachedSubChange
 
 	var alwaysRespond bool
 	var subChanged bool
